@@ -360,8 +360,8 @@ def run(ctx):
     # ---- R3 dispatch wiring --------------------------------------------------------------------------------------------
     ex, edge, region, _, callbb = rr.assertion
     cv = P.val_call(ex, ex.body, callbb)
-    msg_i = common.param_index_of_type(ex, "^%s$" % re.escape(ctx.N.exec_enum("router")))
-    base = P_(ex, msg_i, "~AssertMinimumReceive")
+    msg_i = common.param_index_of_type(rr.execute, "^%s$" % re.escape(ctx.N.exec_enum("router")))
+    base = P_(rr.execute, msg_i, "~AssertMinimumReceive")       # in the entry point's terms, also behind a thin per-variant handler
     wants = []
     if asset_p is not None:
         wants.append((asset_p, {base + ".asset_info"}, "asset_info"))
@@ -405,17 +405,17 @@ def run(ctx):
     ex, edge, region, _, callbb = rr.accept
     dv = P.val_call(ex, ex.body, callbb)
     exi = param(ex, INFO_TY)
-    dbase = P_(ex, msg_i, "~ExecuteSwapOperations")
+    dbase = P_(rr.execute, msg_i, "~ExecuteSwapOperations")      # in the entry point's terms, also behind a thin forwarder
     recvf, hedge, hregion, _, hcall = rr.hook
     hv = P.val_call(recvf, recvf.body, hcall)
-    cw20_i = common.param_index_of_type(recvf, r"^cw20::\S*Cw20ReceiveMsg$")
+    cw20_i = common.param_index_of_type(rr.recv_fn, r"^cw20::\S*Cw20ReceiveMsg$")
     hroot = [r for r in ctx.roots(hv[4][ops_i])]
     hbase = hroot[0].rsplit(".operations", 1)[0] if len(hroot) == 1 and hroot[0].endswith(".operations") else None
     if hbase is None or not hbase.startswith("C:cosmwasm_std::from_binary@"):
         r6.fail("C11.R6:hook-decode", recvf.path, common.span_of_block_term(recvf, hcall), "hook path: operations ⊢ %s, expected the decoded hook message" % sorted(hroot))
     else:
         for label, v, base_, f_, cb_, sender_want in (("direct", dv, dbase, ex, callbb, {P_(ex, exi, ".sender")}),
-                                                        ("hook", hv, hbase, recvf, hcall, {"valid(%s)" % P_(recvf, cw20_i, ".sender")})):
+                                                        ("hook", hv, hbase, recvf, hcall, {"valid(%s)" % P_(rr.recv_fn, cw20_i, ".sender")})):
             got_ops = set(ctx.roots(v[4][ops_i]))
             got_min = set(ctx.roots(v[4][min_i]))
             got_to = set(ctx.roots(v[4][to_i]))
